@@ -418,3 +418,179 @@ def with_oracle(pid, extra_fn=None):
 
 for _p in ("C14", "C19", "C10", "C11", "C09", "C16"):
     EXTRA[_p] = with_oracle(_p)
+
+
+def c09_typed(pid, tier, seed):
+    """Sort-coercion obligations (DESIGN 4/C09): a *list* of member sets must not be indexed by an id.
+    A name bound to `.members()` (no dtype=dict) is a List; subscripting it with a variable that is
+    not an integer position is refuted - the result would depend on the edge ids being 0..m-1."""
+    import ast
+    from . import framecheck as fc
+    obs = []
+    LISTY = {"members", "dimembers", "head", "tail", "aslist"}
+    for rel in fc.package_modules():
+        if not any(rel.startswith(pfx) for pfx in ("xgi/algorithms/", "xgi/stats/", "xgi/linalg/", "xgi/convert/", "xgi/generators/", "xgi/utils/", "xgi/communities/", "xgi/dynamics/")):
+            continue
+        m = extract.module(rel)
+        for q, fn in m.funcs.items():
+            lists, ints = set(), set()
+            for n in ast.walk(fn):
+                if isinstance(n, ast.Assign) and len(n.targets) == 1 and isinstance(n.targets[0], ast.Name) and isinstance(n.value, ast.Call):
+                    f = n.value.func
+                    if isinstance(f, ast.Attribute) and f.attr in LISTY and not n.value.args:
+                        kws = {k.arg: k.value for k in n.value.keywords}
+                        dt = kws.get("dtype")
+                        if dt is None or not (isinstance(dt, ast.Name) and dt.id == "dict"):
+                            lists.add(n.targets[0].id)
+                if isinstance(n, (ast.For, ast.comprehension)):
+                    it = n.iter
+                    tg = n.target
+                    if isinstance(it, ast.Call) and isinstance(it.func, ast.Name) and it.func.id in ("range", "enumerate"):
+                        for t in ([tg] if isinstance(tg, ast.Name) else getattr(tg, "elts", [])[:1]):
+                            if isinstance(t, ast.Name):
+                                ints.add(t.id)
+            bad = []
+            for n in ast.walk(fn):
+                if isinstance(n, ast.Subscript) and isinstance(n.value, ast.Name) and n.value.id in lists:
+                    ix = n.slice
+                    if isinstance(ix, ast.Name) and ix.id not in ints:
+                        bad.append("L%d %s[%s]: a list of member sets indexed by an id" % (n.lineno, n.value.id, ix.id))
+            if lists:
+                o = obligation("C09/index-sort:%s::%s" % (rel, q), not bad, reason="; ".join(bad) or None, where="%s::%s" % (rel, q), props=("C09",), clause="sort-coercion")
+                o["backend"] = "typed subscript check on the AST"
+                obs.append(o)
+    violations = []
+    for i, o in enumerate([o for o in obs if o["status"] == "refuted"]):
+        path = write_text_replay(pid, 50 + i, "C09 sort-coercion obligation refuted: %s\n%s" % (o["name"], o["reason"]), dict(property=pid, obligation=o["name"], reason=o["reason"]))
+        violations.append(dict(obligation=o, path=path, reproduced=False, case=None))
+    return dict(obligations=obs, violations=violations, bounded=[],
+                trusted=["label-freeness of the C09-tagged contracts (degree/size statistics, BFS reach sets): they mention ids only through equality and membership, so they are equivariant under every bijection of ids and independent of insertion order"],
+                assumptions=["numeric measures (Katz, assortativities, clustering via matrix products, simpliciality) are covered by the bounded relabelling oracle only"])
+
+
+EXTRA["C09"] = with_oracle("C09", c09_typed)
+
+
+def c11_glue(pid, tier, seed):
+    """Glue obligations of the file formats (DESIGN 4/C11): the writer hands exactly to_*_dict(H) to
+    json.dumps *before* the file is opened and writes exactly that string; the reader hands exactly
+    json.loads(text) to from_*_dict with the caller's casts; collection file names equal the
+    relative paths recorded for them.  Dataflow checks on the ASTs (straight-line code)."""
+    import ast
+    obs = []
+
+    def ob(name, ok, reason=None, where=None):
+        o = obligation("C11/%s" % name, ok, reason=reason, where=where, props=("C11",), clause="glue")
+        o["backend"] = "dataflow check on the AST"
+        obs.append(o)
+
+    def assigns(fn):
+        return {n.targets[0].id: n for n in ast.walk(fn) if isinstance(n, ast.Assign) and len(n.targets) == 1 and isinstance(n.targets[0], ast.Name)}
+
+    def call_name(c):
+        return ast.unparse(c.func) if isinstance(c, ast.Call) else None
+
+    for rel, w, to_dict, r, from_dict in (("xgi/readwrite/hif.py", "write_hif", "to_hif_dict", "read_hif", "from_hif_dict"),
+                                          ("xgi/readwrite/json.py", "write_json", "to_hypergraph_dict", "read_json", "from_hypergraph_dict")):
+        m = extract.module(rel)
+        fn = m.funcs.get(w)
+        why = []
+        if fn is None:
+            why.append("%s not found" % w)
+        else:
+            # the single-network branch: find `data = to_dict(H)`, `datastring = json.dumps(data, ...)`, with open(path,'w'): write(datastring)
+            dumps = [n for n in ast.walk(fn) if isinstance(n, ast.Assign) and call_name(n.value) == "json.dumps"]
+            found = False
+            for d in dumps:
+                arg = d.value.args[0]
+                if not isinstance(arg, ast.Name):
+                    continue
+                src = [n for n in ast.walk(fn) if isinstance(n, ast.Assign) and isinstance(n.targets[0], ast.Name) and n.targets[0].id == arg.id and call_name(n.value) == to_dict]
+                if not src:
+                    continue
+                if not (len(src[-1].value.args) == 1 and ast.unparse(src[-1].value.args[0]) == "H"):
+                    why.append("%s is not applied to the network itself" % to_dict)
+                withs = [n for n in ast.walk(fn) if isinstance(n, ast.With) and call_name(n.items[0].context_expr) == "open" and n.lineno > d.lineno
+                         and ast.unparse(n.items[0].context_expr.args[0]) == "path"]
+                ok_w = False
+                for wn in withs:
+                    for c in ast.walk(wn):
+                        if isinstance(c, ast.Call) and isinstance(c.func, ast.Attribute) and c.func.attr == "write" and c.args and ast.unparse(c.args[0]) == d.targets[0].id:
+                            ok_w = True
+                if not ok_w:
+                    why.append("the serialised string is not what is written to `path` after serialisation")
+                early = [n for n in ast.walk(fn) if isinstance(n, ast.With) and call_name(n.items[0].context_expr) == "open" and n.lineno < d.lineno
+                         and ast.unparse(n.items[0].context_expr.args[0]) == "path"]
+                if early:
+                    why.append("the file is opened before the data is serialised")
+                found = True
+            if not found:
+                why.append("no `json.dumps(%s(H))` dataflow found" % to_dict)
+        ob("write:%s" % w, not why, "; ".join(why) or None, "%s::%s" % (rel, w))
+        fn = m.funcs.get(r)
+        why = []
+        if fn is None:
+            why.append("%s not found" % r)
+        else:
+            rets = [n for n in ast.walk(fn) if isinstance(n, ast.Return) and call_name(n.value) == from_dict]
+            if not rets:
+                why.append("the reader does not return %s(...)" % from_dict)
+            for rt in rets:
+                a0 = rt.value.args[0] if rt.value.args else None
+                kws = {k.arg: ast.unparse(k.value) for k in rt.value.keywords}
+                if kws.get("nodetype") != "nodetype" or kws.get("edgetype") != "edgetype":
+                    why.append("the caller's nodetype/edgetype casts are not passed through")
+                if not isinstance(a0, ast.Name):
+                    why.append("the parsed data is not passed directly")
+                else:
+                    src = [n for n in ast.walk(fn) if isinstance(n, ast.Assign) and isinstance(n.targets[0], ast.Name) and n.targets[0].id == a0.id]
+                    if not src or not all(call_name(n.value) == "json.loads" and ast.unparse(n.value.args[0]).endswith(".read()") for n in src):
+                        why.append("the data handed to %s is not json.loads(file text)" % from_dict)
+        ob("read:%s" % r, not why, "; ".join(why) or None, "%s::%s" % (rel, r))
+        # collections: file name written == relative path recorded
+        for wname in (w, "write_hif_collection"):
+            fn = m.funcs.get(wname)
+            if fn is None:
+                continue
+            pairs = []
+            for n in ast.walk(fn):
+                if isinstance(n, (ast.For,)):
+                    fa = [a for a in ast.walk(n) if isinstance(a, ast.Assign) and isinstance(a.targets[0], ast.Name) and a.targets[0].id == "fname" and isinstance(a.value, ast.JoinedStr)]
+                    ra = [a for a in ast.walk(n) if isinstance(a, ast.Dict) and any(isinstance(k, ast.Constant) and k.value == "relative-path" for k in a.keys)]
+                    if fa and ra:
+                        pairs.append((fa[0].value, ra[0].values[0]))
+            if not pairs:
+                continue
+            why = []
+            for fname, relp in pairs:
+                fs, rs = ast.unparse(fname), ast.unparse(relp)
+                # f'{path}/{X}' vs f'{X}'
+                if not (fs.startswith("f'{path}/") and fs[len("f'{path}/"):] == rs[len("f'"):]):
+                    why.append("file name %s does not match the recorded relative path %s" % (fs, rs))
+            ob("collection-paths:%s" % wname, not why, "; ".join(why) or None, "%s::%s" % (rel, wname))
+    # text formats: arguments passed through
+    for rel, rd, parse, kws in (("xgi/readwrite/edgelist.py", "read_edgelist", "parse_edgelist", ["comments", "delimiter", "create_using", "nodetype"]),
+                                ("xgi/readwrite/bipartite.py", "read_bipartite_edgelist", "parse_bipartite_edgelist", ["comments", "delimiter", "create_using", "nodetype", "edgetype", "dual"])):
+        m = extract.module(rel)
+        fn = m.funcs.get(rd)
+        why = []
+        calls = [n for n in ast.walk(fn) if isinstance(n, ast.Call) and call_name(n) == parse] if fn else []
+        if not calls:
+            why.append("%s does not call %s" % (rd, parse))
+        for c in calls:
+            got = {k.arg: ast.unparse(k.value) for k in c.keywords}
+            for k in kws:
+                if got.get(k) != k:
+                    why.append("argument %s is not passed through to %s" % (k, parse))
+        ob("read:%s" % rd, not why, "; ".join(why) or None, "%s::%s" % (rel, rd))
+    violations = []
+    for i, o in enumerate([o for o in obs if o["status"] == "refuted"]):
+        path = write_text_replay(pid, 50 + i, "C11 glue obligation refuted: %s\n%s" % (o["name"], o["reason"]), dict(property=pid, obligation=o["name"], reason=o["reason"]))
+        violations.append(dict(obligation=o, path=path, reproduced=False, case=None))
+    return dict(obligations=obs, violations=violations, bounded=[],
+                trusted=["json.loads(json.dumps(x)) == x for JSON-representable x with string keys", "str / split / join round trip for labels without the delimiter, the comment marker or surrounding whitespace",
+                         "numpy.savetxt / loadtxt(ndmin=2) round-trip 0/1 matrices", "the file system returns what was written"],
+                assumptions=["the dict halves (to_hif_dict / from_hif_dict, to_hypergraph_dict / from_hypergraph_dict) and the text parsers are covered by the bounded round-trip oracle (real files in a scratch directory)"])
+
+
+EXTRA["C11"] = with_oracle("C11", c11_glue)
